@@ -61,7 +61,9 @@ def run(ctx):
         violations.append({"class": "runner-crash", "what": f"process died on case {c}", "replay": c})
     # model correspondence on the primitive-op programs
     run_driver(ctx, f"{out}/failsafe.cases", f"{out}/failsafe.model.full")
-    model = [l for l in read_lines(f"{out}/failsafe.model.full") if l.startswith("run ")]
+    mfull = read_lines(f"{out}/failsafe.model.full")
+    model = [l for l in mfull if l.startswith("run ")]
+    sshape = [l for l in mfull if l.startswith("sshape ")]
     impl = read_lines(f"{out}/failsafe.impl")
     cases, progs, cur = [], [], []
     for l in read_lines(f"{out}/failsafe.cases"):
@@ -72,6 +74,16 @@ def run(ctx):
         else:
             cur.append(l)
     dis = 0
+    # P3R.C19.session_shape_fail_err: a session whose definedness pattern fails the value-free shape run must end
+    # in an error in the real runner, whatever the values (checked directly against the implementation)
+    for k in range(min(len(impl), len(sshape))):
+        hist["model." + sshape[k].replace(" ", ".")] = hist.get("model." + sshape[k].replace(" ", "."), 0) + 1
+        if sshape[k] == "sshape no" and impl[k].startswith("run ok"):
+            violations.append({"class": "runner-completes-underdetermined",
+                               "what": "the real runner succeeds on a session whose definedness pattern fails the shape run "
+                                       "(theorem P3R.C19.session_shape_fail_err: every such session must end in an error)",
+                               "replay": {"field": "bb", "program": progs[k] if k < len(progs) else None,
+                                          "session": cases[k] if k < len(cases) else None, "impl": impl[k][:200]}})
     for k in range(max(len(impl), len(model))):
         a = impl[k] if k < len(impl) else None
         b = model[k] if k < len(model) else None
@@ -101,9 +113,11 @@ def run(ctx):
 
 
 CHECK = {
-    "lean_modules": ["P3R.Props.C19"],
+    "lean_modules": ["P3R.Props.C19", "P3R.Props.C19Shape"],
     "theorems": ["P3R.C19.setPublics_len_err", "P3R.C19.setPrivates_len_err", "P3R.C19.setW_conflict_err",
-                 "P3R.C19.setW_set_ok_iff", "P3R.C19.getW_unset_err", "P3R.C19.public_unset_err", "P3R.C19.runFrom_ok_total"],
+                 "P3R.C19.setW_set_ok_iff", "P3R.C19.getW_unset_err", "P3R.C19.public_unset_err", "P3R.C19.runFrom_ok_total",
+                 "P3R.C19.execAlu_ok_shape", "P3R.C19.execOp_ok_shape", "P3R.C19.run_ok_shape_ok", "P3R.C19.shape_fail_run_err",
+                 "P3R.C19.shape_only_depends_on_pattern", "P3R.C19.session_shape_fail_err"],
     "run": run,
     "trusted_base": ["the optimised build's behaviour is observed, not modelled: a pure model cannot exhibit undefined behaviour"],
     "assumptions": ["private data of MMCS ops (set_private_data) is not exercised"],
